@@ -104,3 +104,225 @@ package nodef
 //@   modifies buf.buf.bytes
 //@   ensures [C03] result == nil && buf.buf.bytes == pre
 //@   safety [C03]
+//
+//@ func (*ServerF).KeepAliveWithContext
+//@   noframe
+//@   site ).Write#0 assert [C01,C16] $2 == 1
+//@   sites ).Write = 1
+//@   site TarsInvoke#0 assert [C01,C16] $1 == 0 && $2 == "keepAlive"
+//@   sites TarsInvoke = 1
+//@   site ).Read#0 assert [C01,C16] $2 == 0
+//@   sites ).Read = 1
+//@   site TarsInvoke#0 assert [C01,C16] ((len(opts) == 1 || len(opts) == 2) ==> $5 == opts[0]) && (len(opts) == 2 ==> $4 == opts[1]) && $5 == contextMap && $4 == statusMap && $6 == tarsResp
+//@   site TarsInvoke#0 ghostafter obj.gresp = addr(*tarsResp)
+//@   site TarsInvoke#0 ghostafter obj.gctx = contextMap
+//@   site TarsInvoke#0 ghostafter obj.gsta = statusMap
+//@   site NewReader#0 ghostafter obj.gresp = addr(*tarsResp)
+//@   site NewReader#0 ghostafter obj.gctx = contextMap
+//@   site NewReader#0 ghostafter obj.gsta = statusMap
+//@   site ).Read#0 ghostafter obj.gresp = addr(*tarsResp)
+//@   site ).Read#0 ghostafter obj.gctx = contextMap
+//@   site ).Read#0 ghostafter obj.gsta = statusMap
+//@   ensures [C01,C16] (result1 == nil && len(opts) == 1) ==> (forall k: seq {cast(obj.gctx, "map[string]string")[k]} {haskey(cast(obj.gctx, "map[string]string"), k)} :: haskey(cast(obj.gctx, "map[string]string"), k) ==> (haskey(cast(obj.gresp, "*requestf.ResponsePacket").Context, k) && cast(obj.gctx, "map[string]string")[k] == cast(obj.gresp, "*requestf.ResponsePacket").Context[k]))
+//@   ensures [C01,C16] (result1 == nil && len(opts) == 2) ==> (forall k: seq {cast(obj.gsta, "map[string]string")[k]} {haskey(cast(obj.gsta, "map[string]string"), k)} :: haskey(cast(obj.gsta, "map[string]string"), k) ==> (haskey(cast(obj.gresp, "*requestf.ResponsePacket").Status, k) && cast(obj.gsta, "map[string]string")[k] == cast(obj.gresp, "*requestf.ResponsePacket").Status[k]))
+//@   ensures [C01,C16] (result1 == nil && len(opts) == 2 && obj.gsta != obj.gctx && obj.gsta != cast(obj.gresp, "*requestf.ResponsePacket").Context) ==> (forall k: seq {cast(obj.gctx, "map[string]string")[k]} {haskey(cast(obj.gctx, "map[string]string"), k)} :: haskey(cast(obj.gctx, "map[string]string"), k) ==> (haskey(cast(obj.gresp, "*requestf.ResponsePacket").Context, k) && cast(obj.gctx, "map[string]string")[k] == cast(obj.gresp, "*requestf.ResponsePacket").Context[k]))
+//@   loop 0 invariant obj.gresp == addr(*tarsResp) && obj.gctx == contextMap && obj.gsta == statusMap && len(opts) == 1 && (forall k: seq {visited(0, k)} :: visited(0, k) ==> !haskey(contextMap, k)) && (forall k: seq {haskey(contextMap, k)} :: haskey(contextMap, k) ==> atentry(0, haskey(contextMap, k)))
+//@   loop 1 invariant obj.gresp == addr(*tarsResp) && obj.gctx == contextMap && obj.gsta == statusMap && len(opts) == 1 && (forall k: seq {contextMap[k]} {haskey(contextMap, k)} :: haskey(contextMap, k) ==> (haskey(tarsResp.Context, k) && contextMap[k] == tarsResp.Context[k]))
+//@   loop 2 invariant obj.gresp == addr(*tarsResp) && obj.gctx == contextMap && obj.gsta == statusMap && len(opts) == 2 && (forall k: seq {visited(2, k)} :: visited(2, k) ==> !haskey(contextMap, k)) && (forall k: seq {haskey(contextMap, k)} :: haskey(contextMap, k) ==> atentry(2, haskey(contextMap, k)))
+//@   loop 3 invariant obj.gresp == addr(*tarsResp) && obj.gctx == contextMap && obj.gsta == statusMap && len(opts) == 2 && (forall k: seq {contextMap[k]} {haskey(contextMap, k)} :: haskey(contextMap, k) ==> (haskey(tarsResp.Context, k) && contextMap[k] == tarsResp.Context[k]))
+//@   loop 4 invariant obj.gresp == addr(*tarsResp) && obj.gctx == contextMap && obj.gsta == statusMap && len(opts) == 2 && (forall k: seq {visited(4, k)} :: visited(4, k) ==> !haskey(statusMap, k)) && (forall k: seq {haskey(statusMap, k)} :: haskey(statusMap, k) ==> atentry(4, haskey(statusMap, k))) && ((statusMap != contextMap && statusMap != tarsResp.Context) ==> (forall k: seq {contextMap[k]} {haskey(contextMap, k)} :: haskey(contextMap, k) ==> (haskey(tarsResp.Context, k) && contextMap[k] == tarsResp.Context[k])))
+//@   loop 5 invariant obj.gresp == addr(*tarsResp) && obj.gctx == contextMap && obj.gsta == statusMap && len(opts) == 2 && (forall k: seq {statusMap[k]} {haskey(statusMap, k)} :: haskey(statusMap, k) ==> (haskey(tarsResp.Status, k) && statusMap[k] == tarsResp.Status[k])) && ((statusMap != contextMap && statusMap != tarsResp.Context) ==> (forall k: seq {contextMap[k]} {haskey(contextMap, k)} :: haskey(contextMap, k) ==> (haskey(tarsResp.Context, k) && contextMap[k] == tarsResp.Context[k])))
+//@   loop 0 modifies mapcells(contextMap)
+//@   loop 1 modifies mapcells(contextMap)
+//@   loop 2 modifies mapcells(contextMap)
+//@   loop 3 modifies mapcells(contextMap)
+//@   loop 4 modifies mapcells(statusMap)
+//@   loop 5 modifies mapcells(statusMap)
+//
+//@ func (*ServerF).KeepAliveOneWayWithContext
+//@   noframe
+//@   site ).Write#0 assert [C01,C16] $2 == 1
+//@   sites ).Write = 1
+//@   sites ).Read = 0
+//@   site TarsInvoke#0 assert [C01,C16] $1 == 1 && $2 == "keepAlive"
+//@   sites TarsInvoke = 1
+//
+//@ func (*ServerF).KeepActivingWithContext
+//@   noframe
+//@   site ).Write#0 assert [C01,C16] $2 == 1
+//@   sites ).Write = 1
+//@   site TarsInvoke#0 assert [C01,C16] $1 == 0 && $2 == "keepActiving"
+//@   sites TarsInvoke = 1
+//@   site ).Read#0 assert [C01,C16] $2 == 0
+//@   sites ).Read = 1
+//@   site TarsInvoke#0 assert [C01,C16] ((len(opts) == 1 || len(opts) == 2) ==> $5 == opts[0]) && (len(opts) == 2 ==> $4 == opts[1]) && $5 == contextMap && $4 == statusMap && $6 == tarsResp
+//@   site TarsInvoke#0 ghostafter obj.gresp = addr(*tarsResp)
+//@   site TarsInvoke#0 ghostafter obj.gctx = contextMap
+//@   site TarsInvoke#0 ghostafter obj.gsta = statusMap
+//@   site NewReader#0 ghostafter obj.gresp = addr(*tarsResp)
+//@   site NewReader#0 ghostafter obj.gctx = contextMap
+//@   site NewReader#0 ghostafter obj.gsta = statusMap
+//@   site ).Read#0 ghostafter obj.gresp = addr(*tarsResp)
+//@   site ).Read#0 ghostafter obj.gctx = contextMap
+//@   site ).Read#0 ghostafter obj.gsta = statusMap
+//@   ensures [C01,C16] (result1 == nil && len(opts) == 1) ==> (forall k: seq {cast(obj.gctx, "map[string]string")[k]} {haskey(cast(obj.gctx, "map[string]string"), k)} :: haskey(cast(obj.gctx, "map[string]string"), k) ==> (haskey(cast(obj.gresp, "*requestf.ResponsePacket").Context, k) && cast(obj.gctx, "map[string]string")[k] == cast(obj.gresp, "*requestf.ResponsePacket").Context[k]))
+//@   ensures [C01,C16] (result1 == nil && len(opts) == 2) ==> (forall k: seq {cast(obj.gsta, "map[string]string")[k]} {haskey(cast(obj.gsta, "map[string]string"), k)} :: haskey(cast(obj.gsta, "map[string]string"), k) ==> (haskey(cast(obj.gresp, "*requestf.ResponsePacket").Status, k) && cast(obj.gsta, "map[string]string")[k] == cast(obj.gresp, "*requestf.ResponsePacket").Status[k]))
+//@   ensures [C01,C16] (result1 == nil && len(opts) == 2 && obj.gsta != obj.gctx && obj.gsta != cast(obj.gresp, "*requestf.ResponsePacket").Context) ==> (forall k: seq {cast(obj.gctx, "map[string]string")[k]} {haskey(cast(obj.gctx, "map[string]string"), k)} :: haskey(cast(obj.gctx, "map[string]string"), k) ==> (haskey(cast(obj.gresp, "*requestf.ResponsePacket").Context, k) && cast(obj.gctx, "map[string]string")[k] == cast(obj.gresp, "*requestf.ResponsePacket").Context[k]))
+//@   loop 0 invariant obj.gresp == addr(*tarsResp) && obj.gctx == contextMap && obj.gsta == statusMap && len(opts) == 1 && (forall k: seq {visited(0, k)} :: visited(0, k) ==> !haskey(contextMap, k)) && (forall k: seq {haskey(contextMap, k)} :: haskey(contextMap, k) ==> atentry(0, haskey(contextMap, k)))
+//@   loop 1 invariant obj.gresp == addr(*tarsResp) && obj.gctx == contextMap && obj.gsta == statusMap && len(opts) == 1 && (forall k: seq {contextMap[k]} {haskey(contextMap, k)} :: haskey(contextMap, k) ==> (haskey(tarsResp.Context, k) && contextMap[k] == tarsResp.Context[k]))
+//@   loop 2 invariant obj.gresp == addr(*tarsResp) && obj.gctx == contextMap && obj.gsta == statusMap && len(opts) == 2 && (forall k: seq {visited(2, k)} :: visited(2, k) ==> !haskey(contextMap, k)) && (forall k: seq {haskey(contextMap, k)} :: haskey(contextMap, k) ==> atentry(2, haskey(contextMap, k)))
+//@   loop 3 invariant obj.gresp == addr(*tarsResp) && obj.gctx == contextMap && obj.gsta == statusMap && len(opts) == 2 && (forall k: seq {contextMap[k]} {haskey(contextMap, k)} :: haskey(contextMap, k) ==> (haskey(tarsResp.Context, k) && contextMap[k] == tarsResp.Context[k]))
+//@   loop 4 invariant obj.gresp == addr(*tarsResp) && obj.gctx == contextMap && obj.gsta == statusMap && len(opts) == 2 && (forall k: seq {visited(4, k)} :: visited(4, k) ==> !haskey(statusMap, k)) && (forall k: seq {haskey(statusMap, k)} :: haskey(statusMap, k) ==> atentry(4, haskey(statusMap, k))) && ((statusMap != contextMap && statusMap != tarsResp.Context) ==> (forall k: seq {contextMap[k]} {haskey(contextMap, k)} :: haskey(contextMap, k) ==> (haskey(tarsResp.Context, k) && contextMap[k] == tarsResp.Context[k])))
+//@   loop 5 invariant obj.gresp == addr(*tarsResp) && obj.gctx == contextMap && obj.gsta == statusMap && len(opts) == 2 && (forall k: seq {statusMap[k]} {haskey(statusMap, k)} :: haskey(statusMap, k) ==> (haskey(tarsResp.Status, k) && statusMap[k] == tarsResp.Status[k])) && ((statusMap != contextMap && statusMap != tarsResp.Context) ==> (forall k: seq {contextMap[k]} {haskey(contextMap, k)} :: haskey(contextMap, k) ==> (haskey(tarsResp.Context, k) && contextMap[k] == tarsResp.Context[k])))
+//@   loop 0 modifies mapcells(contextMap)
+//@   loop 1 modifies mapcells(contextMap)
+//@   loop 2 modifies mapcells(contextMap)
+//@   loop 3 modifies mapcells(contextMap)
+//@   loop 4 modifies mapcells(statusMap)
+//@   loop 5 modifies mapcells(statusMap)
+//
+//@ func (*ServerF).KeepActivingOneWayWithContext
+//@   noframe
+//@   site ).Write#0 assert [C01,C16] $2 == 1
+//@   sites ).Write = 1
+//@   sites ).Read = 0
+//@   site TarsInvoke#0 assert [C01,C16] $1 == 1 && $2 == "keepActiving"
+//@   sites TarsInvoke = 1
+//
+//@ func (*ServerF).ReportVersionWithContext
+//@   noframe
+//@   site ).Write#0 assert [C01,C16] $2 == 1
+//@   site ).Write#1 assert [C01,C16] $2 == 2
+//@   site ).Write#2 assert [C01,C16] $2 == 3
+//@   sites ).Write = 3
+//@   site TarsInvoke#0 assert [C01,C16] $1 == 0 && $2 == "reportVersion"
+//@   sites TarsInvoke = 1
+//@   site ).Read#0 assert [C01,C16] $2 == 0
+//@   sites ).Read = 1
+//@   site TarsInvoke#0 assert [C01,C16] ((len(opts) == 1 || len(opts) == 2) ==> $5 == opts[0]) && (len(opts) == 2 ==> $4 == opts[1]) && $5 == contextMap && $4 == statusMap && $6 == tarsResp
+//@   site TarsInvoke#0 ghostafter obj.gresp = addr(*tarsResp)
+//@   site TarsInvoke#0 ghostafter obj.gctx = contextMap
+//@   site TarsInvoke#0 ghostafter obj.gsta = statusMap
+//@   site NewReader#0 ghostafter obj.gresp = addr(*tarsResp)
+//@   site NewReader#0 ghostafter obj.gctx = contextMap
+//@   site NewReader#0 ghostafter obj.gsta = statusMap
+//@   site ).Read#0 ghostafter obj.gresp = addr(*tarsResp)
+//@   site ).Read#0 ghostafter obj.gctx = contextMap
+//@   site ).Read#0 ghostafter obj.gsta = statusMap
+//@   ensures [C01,C16] (result1 == nil && len(opts) == 1) ==> (forall k: seq {cast(obj.gctx, "map[string]string")[k]} {haskey(cast(obj.gctx, "map[string]string"), k)} :: haskey(cast(obj.gctx, "map[string]string"), k) ==> (haskey(cast(obj.gresp, "*requestf.ResponsePacket").Context, k) && cast(obj.gctx, "map[string]string")[k] == cast(obj.gresp, "*requestf.ResponsePacket").Context[k]))
+//@   ensures [C01,C16] (result1 == nil && len(opts) == 2) ==> (forall k: seq {cast(obj.gsta, "map[string]string")[k]} {haskey(cast(obj.gsta, "map[string]string"), k)} :: haskey(cast(obj.gsta, "map[string]string"), k) ==> (haskey(cast(obj.gresp, "*requestf.ResponsePacket").Status, k) && cast(obj.gsta, "map[string]string")[k] == cast(obj.gresp, "*requestf.ResponsePacket").Status[k]))
+//@   ensures [C01,C16] (result1 == nil && len(opts) == 2 && obj.gsta != obj.gctx && obj.gsta != cast(obj.gresp, "*requestf.ResponsePacket").Context) ==> (forall k: seq {cast(obj.gctx, "map[string]string")[k]} {haskey(cast(obj.gctx, "map[string]string"), k)} :: haskey(cast(obj.gctx, "map[string]string"), k) ==> (haskey(cast(obj.gresp, "*requestf.ResponsePacket").Context, k) && cast(obj.gctx, "map[string]string")[k] == cast(obj.gresp, "*requestf.ResponsePacket").Context[k]))
+//@   loop 0 invariant obj.gresp == addr(*tarsResp) && obj.gctx == contextMap && obj.gsta == statusMap && len(opts) == 1 && (forall k: seq {visited(0, k)} :: visited(0, k) ==> !haskey(contextMap, k)) && (forall k: seq {haskey(contextMap, k)} :: haskey(contextMap, k) ==> atentry(0, haskey(contextMap, k)))
+//@   loop 1 invariant obj.gresp == addr(*tarsResp) && obj.gctx == contextMap && obj.gsta == statusMap && len(opts) == 1 && (forall k: seq {contextMap[k]} {haskey(contextMap, k)} :: haskey(contextMap, k) ==> (haskey(tarsResp.Context, k) && contextMap[k] == tarsResp.Context[k]))
+//@   loop 2 invariant obj.gresp == addr(*tarsResp) && obj.gctx == contextMap && obj.gsta == statusMap && len(opts) == 2 && (forall k: seq {visited(2, k)} :: visited(2, k) ==> !haskey(contextMap, k)) && (forall k: seq {haskey(contextMap, k)} :: haskey(contextMap, k) ==> atentry(2, haskey(contextMap, k)))
+//@   loop 3 invariant obj.gresp == addr(*tarsResp) && obj.gctx == contextMap && obj.gsta == statusMap && len(opts) == 2 && (forall k: seq {contextMap[k]} {haskey(contextMap, k)} :: haskey(contextMap, k) ==> (haskey(tarsResp.Context, k) && contextMap[k] == tarsResp.Context[k]))
+//@   loop 4 invariant obj.gresp == addr(*tarsResp) && obj.gctx == contextMap && obj.gsta == statusMap && len(opts) == 2 && (forall k: seq {visited(4, k)} :: visited(4, k) ==> !haskey(statusMap, k)) && (forall k: seq {haskey(statusMap, k)} :: haskey(statusMap, k) ==> atentry(4, haskey(statusMap, k))) && ((statusMap != contextMap && statusMap != tarsResp.Context) ==> (forall k: seq {contextMap[k]} {haskey(contextMap, k)} :: haskey(contextMap, k) ==> (haskey(tarsResp.Context, k) && contextMap[k] == tarsResp.Context[k])))
+//@   loop 5 invariant obj.gresp == addr(*tarsResp) && obj.gctx == contextMap && obj.gsta == statusMap && len(opts) == 2 && (forall k: seq {statusMap[k]} {haskey(statusMap, k)} :: haskey(statusMap, k) ==> (haskey(tarsResp.Status, k) && statusMap[k] == tarsResp.Status[k])) && ((statusMap != contextMap && statusMap != tarsResp.Context) ==> (forall k: seq {contextMap[k]} {haskey(contextMap, k)} :: haskey(contextMap, k) ==> (haskey(tarsResp.Context, k) && contextMap[k] == tarsResp.Context[k])))
+//@   loop 0 modifies mapcells(contextMap)
+//@   loop 1 modifies mapcells(contextMap)
+//@   loop 2 modifies mapcells(contextMap)
+//@   loop 3 modifies mapcells(contextMap)
+//@   loop 4 modifies mapcells(statusMap)
+//@   loop 5 modifies mapcells(statusMap)
+//
+//@ func (*ServerF).ReportVersionOneWayWithContext
+//@   noframe
+//@   site ).Write#0 assert [C01,C16] $2 == 1
+//@   site ).Write#1 assert [C01,C16] $2 == 2
+//@   site ).Write#2 assert [C01,C16] $2 == 3
+//@   sites ).Write = 3
+//@   sites ).Read = 0
+//@   site TarsInvoke#0 assert [C01,C16] $1 == 1 && $2 == "reportVersion"
+//@   sites TarsInvoke = 1
+//
+//@ func (*ServerF).GetLatestKeepAliveTimeWithContext
+//@   noframe
+//@   sites ).Write = 0
+//@   site TarsInvoke#0 assert [C01,C16] $1 == 0 && $2 == "getLatestKeepAliveTime"
+//@   sites TarsInvoke = 1
+//@   site ).Read#0 assert [C01,C16] $2 == 0
+//@   sites ).Read = 1
+//@   site TarsInvoke#0 assert [C01,C16] ((len(opts) == 1 || len(opts) == 2) ==> $5 == opts[0]) && (len(opts) == 2 ==> $4 == opts[1]) && $5 == contextMap && $4 == statusMap && $6 == tarsResp
+//@   site TarsInvoke#0 ghostafter obj.gresp = addr(*tarsResp)
+//@   site TarsInvoke#0 ghostafter obj.gctx = contextMap
+//@   site TarsInvoke#0 ghostafter obj.gsta = statusMap
+//@   site NewReader#0 ghostafter obj.gresp = addr(*tarsResp)
+//@   site NewReader#0 ghostafter obj.gctx = contextMap
+//@   site NewReader#0 ghostafter obj.gsta = statusMap
+//@   site ).Read#0 ghostafter obj.gresp = addr(*tarsResp)
+//@   site ).Read#0 ghostafter obj.gctx = contextMap
+//@   site ).Read#0 ghostafter obj.gsta = statusMap
+//@   ensures [C01,C16] (result1 == nil && len(opts) == 1) ==> (forall k: seq {cast(obj.gctx, "map[string]string")[k]} {haskey(cast(obj.gctx, "map[string]string"), k)} :: haskey(cast(obj.gctx, "map[string]string"), k) ==> (haskey(cast(obj.gresp, "*requestf.ResponsePacket").Context, k) && cast(obj.gctx, "map[string]string")[k] == cast(obj.gresp, "*requestf.ResponsePacket").Context[k]))
+//@   ensures [C01,C16] (result1 == nil && len(opts) == 2) ==> (forall k: seq {cast(obj.gsta, "map[string]string")[k]} {haskey(cast(obj.gsta, "map[string]string"), k)} :: haskey(cast(obj.gsta, "map[string]string"), k) ==> (haskey(cast(obj.gresp, "*requestf.ResponsePacket").Status, k) && cast(obj.gsta, "map[string]string")[k] == cast(obj.gresp, "*requestf.ResponsePacket").Status[k]))
+//@   ensures [C01,C16] (result1 == nil && len(opts) == 2 && obj.gsta != obj.gctx && obj.gsta != cast(obj.gresp, "*requestf.ResponsePacket").Context) ==> (forall k: seq {cast(obj.gctx, "map[string]string")[k]} {haskey(cast(obj.gctx, "map[string]string"), k)} :: haskey(cast(obj.gctx, "map[string]string"), k) ==> (haskey(cast(obj.gresp, "*requestf.ResponsePacket").Context, k) && cast(obj.gctx, "map[string]string")[k] == cast(obj.gresp, "*requestf.ResponsePacket").Context[k]))
+//@   loop 0 invariant obj.gresp == addr(*tarsResp) && obj.gctx == contextMap && obj.gsta == statusMap && len(opts) == 1 && (forall k: seq {visited(0, k)} :: visited(0, k) ==> !haskey(contextMap, k)) && (forall k: seq {haskey(contextMap, k)} :: haskey(contextMap, k) ==> atentry(0, haskey(contextMap, k)))
+//@   loop 1 invariant obj.gresp == addr(*tarsResp) && obj.gctx == contextMap && obj.gsta == statusMap && len(opts) == 1 && (forall k: seq {contextMap[k]} {haskey(contextMap, k)} :: haskey(contextMap, k) ==> (haskey(tarsResp.Context, k) && contextMap[k] == tarsResp.Context[k]))
+//@   loop 2 invariant obj.gresp == addr(*tarsResp) && obj.gctx == contextMap && obj.gsta == statusMap && len(opts) == 2 && (forall k: seq {visited(2, k)} :: visited(2, k) ==> !haskey(contextMap, k)) && (forall k: seq {haskey(contextMap, k)} :: haskey(contextMap, k) ==> atentry(2, haskey(contextMap, k)))
+//@   loop 3 invariant obj.gresp == addr(*tarsResp) && obj.gctx == contextMap && obj.gsta == statusMap && len(opts) == 2 && (forall k: seq {contextMap[k]} {haskey(contextMap, k)} :: haskey(contextMap, k) ==> (haskey(tarsResp.Context, k) && contextMap[k] == tarsResp.Context[k]))
+//@   loop 4 invariant obj.gresp == addr(*tarsResp) && obj.gctx == contextMap && obj.gsta == statusMap && len(opts) == 2 && (forall k: seq {visited(4, k)} :: visited(4, k) ==> !haskey(statusMap, k)) && (forall k: seq {haskey(statusMap, k)} :: haskey(statusMap, k) ==> atentry(4, haskey(statusMap, k))) && ((statusMap != contextMap && statusMap != tarsResp.Context) ==> (forall k: seq {contextMap[k]} {haskey(contextMap, k)} :: haskey(contextMap, k) ==> (haskey(tarsResp.Context, k) && contextMap[k] == tarsResp.Context[k])))
+//@   loop 5 invariant obj.gresp == addr(*tarsResp) && obj.gctx == contextMap && obj.gsta == statusMap && len(opts) == 2 && (forall k: seq {statusMap[k]} {haskey(statusMap, k)} :: haskey(statusMap, k) ==> (haskey(tarsResp.Status, k) && statusMap[k] == tarsResp.Status[k])) && ((statusMap != contextMap && statusMap != tarsResp.Context) ==> (forall k: seq {contextMap[k]} {haskey(contextMap, k)} :: haskey(contextMap, k) ==> (haskey(tarsResp.Context, k) && contextMap[k] == tarsResp.Context[k])))
+//@   loop 0 modifies mapcells(contextMap)
+//@   loop 1 modifies mapcells(contextMap)
+//@   loop 2 modifies mapcells(contextMap)
+//@   loop 3 modifies mapcells(contextMap)
+//@   loop 4 modifies mapcells(statusMap)
+//@   loop 5 modifies mapcells(statusMap)
+//
+//@ func (*ServerF).GetLatestKeepAliveTimeOneWayWithContext
+//@   noframe
+//@   sites ).Write = 0
+//@   sites ).Read = 0
+//@   site TarsInvoke#0 assert [C01,C16] $1 == 1 && $2 == "getLatestKeepAliveTime"
+//@   sites TarsInvoke = 1
+//
+//@ func (*ServerF).Dispatch
+//@   noframe
+//@   site Int8ToByte#0 ghost obj.gimpfail = false
+//@   site *#0 assert [C01,C16] !obj.gimpfail
+//@   site *#0 ghostafter obj.gimpfail = false
+//@   site ServerFServant).KeepAlive#0 ghostafter obj.gimperr = $ret1
+//@   site ServerFServant).KeepAlive#0 ghostafter obj.gimpfail = $ret1 != nil
+//@   sites ServerFServant).KeepAlive = 1
+//@   site ServerFServantWithContext).KeepAlive#0 ghostafter obj.gimperr = $ret1
+//@   site ServerFServantWithContext).KeepAlive#0 ghostafter obj.gimpfail = $ret1 != nil
+//@   sites ServerFServantWithContext).KeepAlive = 1
+//@   site ServerFServant).KeepActiving#0 ghostafter obj.gimperr = $ret1
+//@   site ServerFServant).KeepActiving#0 ghostafter obj.gimpfail = $ret1 != nil
+//@   sites ServerFServant).KeepActiving = 1
+//@   site ServerFServantWithContext).KeepActiving#0 ghostafter obj.gimperr = $ret1
+//@   site ServerFServantWithContext).KeepActiving#0 ghostafter obj.gimpfail = $ret1 != nil
+//@   sites ServerFServantWithContext).KeepActiving = 1
+//@   site ServerFServant).ReportVersion#0 ghostafter obj.gimperr = $ret1
+//@   site ServerFServant).ReportVersion#0 ghostafter obj.gimpfail = $ret1 != nil
+//@   sites ServerFServant).ReportVersion = 1
+//@   site ServerFServantWithContext).ReportVersion#0 ghostafter obj.gimperr = $ret1
+//@   site ServerFServantWithContext).ReportVersion#0 ghostafter obj.gimpfail = $ret1 != nil
+//@   sites ServerFServantWithContext).ReportVersion = 1
+//@   site ServerFServant).GetLatestKeepAliveTime#0 ghostafter obj.gimperr = $ret1
+//@   site ServerFServant).GetLatestKeepAliveTime#0 ghostafter obj.gimpfail = $ret1 != nil
+//@   sites ServerFServant).GetLatestKeepAliveTime = 1
+//@   site ServerFServantWithContext).GetLatestKeepAliveTime#0 ghostafter obj.gimperr = $ret1
+//@   site ServerFServantWithContext).GetLatestKeepAliveTime#0 ghostafter obj.gimpfail = $ret1 != nil
+//@   sites ServerFServantWithContext).GetLatestKeepAliveTime = 1
+//@   ensures [C01,C16] obj.gimpfail ==> result == obj.gimperr
+//@   perreturn
+//@   site ).Read#0 assert [C01,C16] $2 == 1
+//@   site ).Read#1 assert [C01,C16] $2 == 0
+//@   site ).Read#2 assert [C01,C16] $2 == 1
+//@   site ).Read#3 assert [C01,C16] $2 == 0
+//@   site ).Read#4 assert [C01,C16] $2 == 1
+//@   site ).Read#5 assert [C01,C16] $2 == 2
+//@   site ).Read#6 assert [C01,C16] $2 == 3
+//@   site ).Read#7 assert [C01,C16] $2 == 0
+//@   site ).Read#8 assert [C01,C16] $2 == 0
+//@   site ).Read#9 assert [C01,C16] $2 == 0
+//@   sites ).Read = 10
+//@   site ).Write#0 assert [C01,C16] $2 == 0
+//@   site ).Write#1 assert [C01,C16] $2 == 0
+//@   site ).Write#3 assert [C01,C16] $2 == 0
+//@   site ).Write#4 assert [C01,C16] $2 == 0
+//@   site ).Write#6 assert [C01,C16] $2 == 0
+//@   site ).Write#7 assert [C01,C16] $2 == 0
+//@   site ).Write#9 assert [C01,C16] $2 == 0
+//@   site ).Write#10 assert [C01,C16] $2 == 0
+//@   sites ).Write = 12
